@@ -6,6 +6,7 @@ Proofs: Rip/Lemmas/Context.lean. Witness: Rip/Cex/C08.lean.
 -/
 import Rip.Lemmas.Context
 import Rip.Cex.C08
+import Rip.Lemmas.LogBytes
 namespace Rip.Props.C08
 open Rip.Context
 
@@ -98,5 +99,20 @@ theorem window_suffices (pre win : List F) (f : Nat) (a : Option Nat) (l : Nat) 
 theorem window_replies (pre win : List F) (hv : Valid (pre ++ win)) (f mid : Nat)
     (h : ∀ x ∈ pre, ∀ s, x.kind ≠ .runEnded mid s) : endedFor (pre ++ win) f mid = endedFor win f mid :=
   window_endedFor pre win hv f mid h
+
+/-! ### frames whose append is in flight -/
+
+/-- **A frame that is still being written does not exist for a reader**: behind a log of whole
+lines, whatever part of the next frame's body is already in the file (no newline yet), the lines a
+reader gets — and therefore every reply text, message and checkpoint the compiler reads from the log
+— are those of the log before that append began. The real `EventLog::replay` is run on exactly such
+files (a parked writer; a body cut at a random byte) by the harness on every run; before the repair
+97db05b it failed as a whole there and the compiled context lost its reply texts. -/
+theorem inflight_frame_invisible (log frag : Rip.Proto.Bytes)
+    (hw : Rip.LogBytes.WholeLines log) (hf : Rip.LogBytes.NoNl frag) :
+    Rip.LogBytes.linesOf (log ++ frag) = Rip.LogBytes.linesOf log :=
+  Rip.LogBytes.linesOf_inflight log frag hw hf
+
+example : Rip.LogBytes.linesOf ([123, 125, 10] ++ [123, 34, 105]) = [[123, 125]] := by decide
 
 end Rip.Props.C08
